@@ -440,6 +440,23 @@ def _has_continue(ct, bo, bc):
     return False
 
 
+def _continue_toks(ct, bo, bc):
+    """token indices of the `continue`s belonging to this loop (not to a nested loop)"""
+    out = []
+    j = bo + 1
+    while j < bc:
+        t = ct[j]
+        if t.k == 'id' and t.t in ('for', 'while', 'loop') and ct[j + 1].t != '<':
+            k = j + 1
+            while ct[k].t != '{':
+                if ct[k].t in ('(', '['): k = match_close(ct, k)
+                k += 1
+            j = match_close(ct, k) + 1; continue
+        if t.k == 'id' and t.t == 'continue': out.append(j)
+        j += 1
+    return out
+
+
 def _is_ref_param(src, pos, name):
     """True when `name` is a parameter of reference type of the function enclosing `pos`."""
     k = src.rfind('fn ', 0, pos)
@@ -523,8 +540,38 @@ def r3_loops(src, ctx, map_locals=()):
                     new = f'{{ let mut {itv} = {ctor};\nwhile {itv}.has_next() /*DEC*/ decreases {itv}.rest().len() {{\nlet {pat} = {itv}.next_val();\n'
                     close_extra = '\n}'
                     rule = 'R12'
+                elif not by_value and _has_continue(ct, bo, bc) and re.match(r'^\w+$', pat) and re.match(r'^[^.]+(\.[^.]+)*?\.\.[^=.][^.]*(\.[^.]+)*$', expr) and expr.count('..') == 1:
+                    # R3c: `for x in A..B { .. continue; .. }` (Verus: "for-loops do not yet support continue") -> a while loop over the SAME
+                    # variable: `let mut x = A; while x < B { ..; x += 1 }`, every `continue` of this loop preceded by the increment.
+                    # The original header is kept as a comment inside the new one so that contract anchors written for the `for` still find it.
+                    a, b = [x.strip() for x in expr.split('..')]
+                    cts = _continue_toks(ct, bo, bc)
+                    if any(ct[j + 1].t not in (';', ',', '}') for j in cts): raise Unsupported('labelled continue in for-loop over ' + expr)
+                    # B is re-evaluated by the while loop: sound only if the body cannot change it
+                    bt = code_toks(tokenize(b))
+                    bids = {t.t for t in bt if t.k == 'id'}
+                    if any(t.t == '(' and k > 0 and bt[k - 1].k == 'id' and not (k > 1 and bt[k - 2].t == '.' and bt[k - 1].t == 'len') for k, t in enumerate(bt)):
+                        raise Unsupported('for-loop with continue over a range whose bound calls a function: ' + expr)
+                    for j in range(bo + 1, bc):
+                        if ct[j].k == 'id' and ct[j].t in bids:
+                            nx, nx2 = ct[j + 1].t, ct[j + 2].t
+                            assigned = (nx == '=' and nx2 != '=') or (nx in '+-*/%' and nx2 == '=' and ct[j + 1].e == ct[j + 2].s)
+                            borrowed = ct[j - 1].t == 'mut' and ct[j - 2].t == '&'
+                            if (assigned and ct[j - 1].t not in ('.', 'let', 'mut')) or borrowed:
+                                raise Unsupported('for-loop with continue over a range whose bound the body changes: ' + expr)
+                    body = src[ct[bo].e:ct[bc].s]
+                    off = ct[bo].e
+                    for j in reversed(cts):
+                        body = body[:ct[j].s - off] + f'{{ {pat} += 1; continue }}' + body[ct[j].e - off:]
+                    before = re.sub(r'\s+', ' ', src[hdr_s:hdr_e])
+                    hdr = re.sub(r'\s+', ' ', src[ct[i_for].s:ct[bo].s]).strip()
+                    new = f'{{ let mut {pat} = {a}; while /*{hdr}*/ {pat} < {b} /*DEC*/ decreases {b} - {pat} {{'
+                    src = src[:hdr_s] + new + body + f'\n{pat} += 1;\n}} }}' + src[ct[bc].e:]
+                    ctx.log.append(('R3c', before, new))
+                    done = False
+                    break
                 elif not by_value and _has_continue(ct, bo, bc):
-                    mm = re.match(r'^&\s*(\w[\w.]*)$', expr) or re.match(r'^(\w[\w.]*)\.iter\(\)$', expr)
+                    mm = re.match(r'^&\s*(\w[\w.]*)$', expr) or re.match(r'^(\w[\w.]*)\.iter\(\)$', expr) or (re.match(r'^(\w+)$', expr) if _is_ref_param(src, ct[i_for].s, expr) else None)
                     if not mm: raise Unsupported('for-loop with continue over ' + expr)
                     e = mm.group(1); iv = ctx.fresh('i')
                     new = f'{{ let mut {iv}: usize = 0; while {iv} < {e}.len() /*DEC*/ decreases {e}.len() - {iv} {{\nlet {pat} = &{e}[{iv}]; {iv} += 1;\n'
